@@ -63,7 +63,7 @@ impl Counters {
 pub fn panic_site(msg: &str) -> String {
     match msg.rfind(" @ ") {
         Some(i) => {
-            let loc = &msg[i + 3..];
+            let loc = msg[i + 3..].split_whitespace().next().unwrap_or("");
             // keep the path relative to the crate
             match loc.find("src/") {
                 Some(j) => loc[j..].to_string(),
